@@ -48,6 +48,8 @@ class StubSigner(object):
         return b'SIG[%d]:' % self.kid + bytes(data)
 
     def GetPublicKey(self):
+        if self.pub_as_bytes == 'nonascii':
+            return 'PUBKEY-%d jos\u00e9@b\u00fccherwurm \u9375' % self.kid      # a key comment outside ASCII, returned as text like the shipped signers do
         pk = 'PUBKEY-%d user@host' % self.kid
         return pk.encode() if self.pub_as_bytes else pk
 
@@ -173,7 +175,7 @@ class Session(object):
             self.env.session_over = dict(sim) if sim else None
             keys = kw.pop('_keys', None)
             if keys is not None:
-                kw['rsa_keys'] = [StubSigner(k) for k in keys]
+                kw['rsa_keys'] = [StubSigner(*k) if isinstance(k, (list, tuple)) else StubSigner(k) for k in keys]
             return self.run(lambda d: d.connect(**kw))
         if name == 'streaming_shell':
             if sync:
@@ -306,6 +308,11 @@ class Session(object):
         if src[0] == 'bytes':
             bio = io.BytesIO(src[1])
             return self.run(lambda d: d.push(bio, device_path, **kw))
+        if src[0] == 'bytes-at':
+            # a stream the caller has already read from: what remains is src[1][src[2]:]
+            bio = io.BytesIO(src[1])
+            bio.seek(src[2])
+            return self.run(lambda d: d.push(bio, device_path, **kw))
         base = tempfile.mkdtemp(prefix='push-', dir=tmpdir())
         try:
             if src[0] == 'file':
@@ -313,6 +320,24 @@ class Session(object):
                 with open(path, 'wb') as f:
                     f.write(src[1])
                 return self.run(lambda d: d.push(path, device_path, **kw))
+            if src[0] == 'file-grow':
+                # a file that another process appends to while it is being pushed: src[2] is appended when the host's first WRTE of this
+                # push reaches the transport (a deterministic instant of the execution)
+                path = os.path.join(base, 'src.bin')
+                with open(path, 'wb') as f:
+                    f.write(src[1])
+                env = self.env
+
+                def grow(data, _path=path, _extra=src[2]):
+                    if bytes(data[:4]) == b'WRTE':
+                        with open(_path, 'ab') as f:
+                            f.write(_extra)
+                        env.write_hook = None
+                env.write_hook = grow
+                try:
+                    return self.run(lambda d: d.push(path, device_path, **kw))
+                finally:
+                    env.write_hook = None
             if src[0] == 'dir':
                 d0 = os.path.join(base, 'tree')
                 os.mkdir(d0)
